@@ -821,3 +821,93 @@ Example ex_split_nonvacuous :
   = Some ([(100, 5); (100, 0); (100, 0); (5, 0)], [(100, 5); (100, 0); (100, 1); (5, 1)])
   /\ residue_of [(100, 10); (100, 0); (100, 1); (5, 1)] 7 = 2.
 Proof. vm_compute. split; reflexivity. Qed.
+
+(** the event sum is what the account's own GetUnlockedCoins computes (except at
+    the very second of the start time, where the code does not yet count a
+    zero-length first period) *)
+Lemma unlocked_at_eq_ev va t : acct_ok va -> t <> a_start va -> unlocked_at va t = unlocked_ev va t.
+Proof.
+  intros (L1 & L2 & L3 & L4 & _) Ht. unfold unlocked_at, unlocked_ev.
+  apply read_schedule_eq_ev; auto.
+Qed.
+
+(** * statements over all histories (the forms closed in Props/C11.v) *)
+Lemma inv_reachable ops : Inv (run true ops init).
+Proof. exact (run_inv true ops init inv_init). Qed.
+
+Lemma backing_all_histories ops :
+  let s := run true ops init in
+  msum (supply s) = escrow s /\
+  (forall d, msum (holders_of s d) = zget (supply s) d) /\
+  (forall d a, 0 <= hold s d a).
+Proof.
+  intros s. pose proof (inv_reachable ops) as H.
+  exact (conj (inv_backing _ H) (conj (inv_hold _ H) (inv_hold_nonneg _ H))).
+Qed.
+
+Lemma schedule_sums_all_histories ops d :
+  let s := run true ops init in
+  match denoms s !! d with
+  | Some den => total (d_periods den) = zget (supply s) d /\ 0 < zget (supply s) d /\
+                (d < counter s)%N /\ den_ok den
+  | None => zget (supply s) d = 0
+  end.
+Proof.
+  intros s. pose proof (inv_reachable ops) as H. fold s in H.
+  destruct (denoms s !! d) as [den|] eqn:E.
+  - destruct (inv_dens _ H _ _ E) as (A & B & C & D). exact (conj B (conj C (conj D A))).
+  - exact (inv_nodens _ H _ E).
+Qed.
+
+Lemma accounts_valid_all_histories ops a va : accts (run true ops init) !! a = Some va -> acct_ok va.
+Proof. exact (inv_accts _ (inv_reachable ops) a va). Qed.
+
+Lemma liquidate_split_all_histories ops t from to x s' :
+  let s := run true ops init in
+  step true s (Liquidate t from to x) = (s', OK) ->
+  exists va va' den k dec diff,
+    accts s !! from = Some va /\ accts s' !! from = Some va' /\
+    denoms s' !! counter s = Some den /\
+    a_start va' = a_start va /\ a_end va' = a_end va /\ a_orig va' = a_orig va - x /\
+    a_lock va' = firstn k (a_lock va) ++ dec /\
+    split3 (skipn k (a_lock va)) dec diff /\ total diff = x /\
+    map pamt (d_periods den) = map pamt diff /\ length (d_periods den) = length diff /\
+    d_start den = t /\ a_start va < t < a_end va /\
+    (forall tau, ev (d_start den) (d_periods den) tau + unlocked_ev va' tau = unlocked_ev va tau).
+Proof. intros s. exact (liquidate_split true s t from to x s' (inv_reachable ops)). Qed.
+
+Lemma redeem_no_early_unlock_all_histories ops t from to d x s' :
+  let s := run true ops init in
+  step true s (Redeem t from to d x) = (s', OK) ->
+  exists den dec diff,
+    denoms s !! d = Some den /\
+    subtract_amount (d_periods den) x = Some (dec, diff) /\
+    split3 (d_periods den) dec diff /\ total diff = x /\
+    (forall tau, ev (d_start den) diff tau <= ev (d_start den) (d_periods den) tau) /\
+    (forall tau, lock_ev s' to tau <= lock_ev s to tau + ev (d_start den) diff tau) /\
+    (forall tau, t <= tau ->
+       locked_ev s' to tau = locked_ev s to tau + (x - ev (d_start den) diff tau)) /\
+    (forall tau, t <= tau ->
+       locked_ev s to tau + (x - ev (d_start den) diff tau) <= locked_real s' to tau).
+Proof. intros s. exact (redeem_no_early_unlock s t from to d x s' (inv_reachable ops)). Qed.
+
+Lemma split3_meaning o d f : split3 o d f ->
+  length d = length o /\ length f = length o /\
+  forall i, (i < length o)%nat ->
+    plen (nth i d (0, 0)) = plen (nth i o (0, 0)) /\ plen (nth i f (0, 0)) = plen (nth i o (0, 0)) /\
+    pamt (nth i d (0, 0)) + pamt (nth i f (0, 0)) = pamt (nth i o (0, 0)) /\
+    0 <= pamt (nth i d (0, 0)) /\ 0 <= pamt (nth i f (0, 0)).
+Proof.
+  intros H. destruct (split3_length o d f H) as [A B]. split; [exact A|]. split; [exact B|].
+  exact (split3_nth o d f H).
+Qed.
+
+Lemma event_sum_is_unlocked va t : acct_ok va ->
+  unlocked_at va t <= unlocked_ev va t /\ (t <> a_start va -> unlocked_at va t = unlocked_ev va t).
+Proof. intros H. exact (conj (unlocked_at_le_ev va t H) (unlocked_at_eq_ev va t H)). Qed.
+
+Lemma nonvacuous_history :
+  run_codes true ex_history init = [OK; OK; OK; OK; OK; OK; OK; OK] /\
+  (let s := run true ex_history init in
+   escrow s = 0 /\ denoms s !! 0%N = None /\ zget (bank s) 0%N = 56 /\ zget (bank s) 3%N = 4).
+Proof. exact (conj ex_history_all_ok ex_history_final). Qed.
